@@ -94,6 +94,11 @@ func c02exec(c *h.Ctx, cs *h.Case) {
 		if err != nil {
 			panic(err)
 		}
+		if wireSI == "c" {
+			// the message carries a configuration for the protocol constructor, as the first message of a run may
+			env.Msg.(*onet.ProtocolMsg).Config = &onet.GenericConfig{Data: []byte{1, 2, 3}}
+			wireSI = ""
+		}
 		if wireSI != "" {
 			k, _ := strconv.Atoi(wireSI[1:])
 			env.Msg.(*onet.ProtocolMsg).ServerIdentity = f.cl.SI(k)
@@ -469,6 +474,13 @@ func c02gen(c *h.Ctx, yield func(*h.Case)) {
 						c.Count("class=table")
 						c.Count("sender=" + classify(s, p))
 						yield(cs)
+						if r.Intn(c.Pick(6, 2)) == 0 {
+							// the same case, the crafted message carrying a configuration
+							cc := &h.Case{Class: cs.Class + " config", Ops: append([]string{}, cs.Ops...)}
+							cc.Ops[1] += " c"
+							c.Count("class=table config")
+							yield(cc)
+						}
 					}
 				}
 			}
